@@ -100,6 +100,11 @@ func (it *NativeIterator) Merge(oldval []byte) (val []byte, err error) {
 			// Remove (effectively 'do not add', because it does not exist)
 			return nil, nil
 		}
+		if len(entryVal) == 0 && it.FormatVersion < 2 && header.Timestamp(entry.TimestampNano) < it.DeletedCutoff {
+			// Before formatVersion 2 an empty value indicated a deleted entry
+			// (see addHeader), so this is a stale deletion record too.
+			return nil, nil
+		}
 
 		// Add with header
 		return it.addHeader(
